@@ -97,11 +97,11 @@ theorem one_reply_pushH (left : Bool) (args : List Bytes) : OneReply (Handler2.p
   · exact oneReply_errReply
 
 /-- LPOP / RPOP: null, one bulk (count = 1), or `*len` with `len` bulk strings -/
-theorem good_pop_k (cnt : Int) (s : MState) (o : Out) :
+theorem good_pop_k (noCount : Bool) (s : MState) (o : Out) :
     Good (match o with
           | .blist (v :: vs) =>
             let bs := (v :: vs).map (·.getD [])
-            if cnt = 1 then done s [.bulk (v.getD [])] else done s (bulkList bs)
+            if noCount then done s [.bulk (v.getD [])] else done s (bulkList bs)
           | _ => done s [.nullBulk]) := by
   split
   · dsimp only
